@@ -1,6 +1,8 @@
 """C03 — documents that break any specification rule are rejected, never resolved."""
 from __future__ import annotations
 
+import os
+
 from props.resolve_common import *  # noqa: F401,F403
 
 RULE = ("rule-targeted and random structural mutants (values exactly on, just inside, just outside each bound; deleted / retyped "
@@ -57,6 +59,20 @@ def defaults_sweep(ctx):
                           python=py_repro(d, "g"))
         if code[0] != "ok" and ok:
             ctx.violation("a valid document with a valid unused default is rejected: " + t.split(":")[1], {"document": show(canon_doc(d))})
+
+
+def accepted_without_assertions(doc):
+    """does `python -O` (assert statements removed) resolve the document?"""
+    import subprocess, sys
+    code = ("import json, sys, demes\n"
+            "try:\n    demes.Graph.fromdict(json.loads(sys.stdin.read()))\n    print('ACCEPTED')\n"
+            "except Exception as e:\n    print('REJECTED', type(e).__name__)\n")
+    try:
+        p = subprocess.run([sys.executable, "-O", "-c", code], input=json.dumps(doc).encode(), stdout=subprocess.PIPE, stderr=subprocess.DEVNULL,
+                           timeout=60, env=dict(os.environ))
+        return p.stdout.decode().startswith("ACCEPTED")
+    except Exception:  # noqa: BLE001
+        return False
 
 
 def _num(v):
@@ -142,6 +158,9 @@ def run(ctx):
             code = res["dict"]
             ctx.count(show(canon_doc(d)), t != "parent", tags=[("op:" + t.split("+")[0].split(":")[0]), "accepted" if code[0] == "ok" else "rejected:" + code[1]])
             compare_with_model(ctx, d, code, rep)
+            if code[0] == "err" and code[1] == "AssertionError" and json_safe(d) and accepted_without_assertions(d):
+                ctx.violation("a document the specification rejects is refused only by an assert statement: with assertions disabled (python -O) it is resolved",
+                              {"document": show(canon_doc(d)), "interpreter": "python -O"}, python=py_repro(d, "g").replace("/venv/bin/python -c", "/venv/bin/python -O -c"))
             # the independent validator written from the specification (Spec.accepts = schemaOK, fill, validGraph;
             # theorem resolve_ok_iff ties it to the Model) against the REAL code, both directions
             if a.get("wf") and "ok" in a and a["ok"] != (code[0] == "ok"):
